@@ -209,8 +209,11 @@ def _circumstance(api, c, delimiter, rng, how):
 
     with probe.monitor_mode():
         try:
-            if r < 0.09:
+            if r < 0.06:
                 c2, tag = copy.deepcopy(c), "deep-copied"
+            elif r < 0.09:
+                # copy.copy: whatever the two share, both must stay converters that answer from their own records
+                c2, tag = copy.copy(c), "shallow-copied"
             elif r < 0.18:
                 c2, tag = pickle.loads(pickle.dumps(c)), "pickled"
             else:
